@@ -62,6 +62,12 @@ func (g *Gen) txEth(kind string, hostile bool) STx {
 	default:
 		panic("unknown kind " + kind)
 	}
+	if hostile && kind == "ETH_LOCK" && g.R.Intn(3) == 0 {
+		// the embedded ethereum transaction is a contract creation: it has no recipient (only for locks: a redeem does not
+		// look at the recipient, and such a request would be a second external transaction under the same model name)
+		t.A["noto"] = 1
+		g.hclass, g.class = "", "eth:no-recipient"
+	}
 	if g.G.Erc20 && (kind == "ETH_LOCK" || kind == "ETH_REDEEM" || kind == "ETH_REPORT") {
 		t.A["erc"] = 1 // the ERC20 side: token transfers and the token's wrapped currency
 	}
